@@ -60,7 +60,7 @@ func ident(g *yg.G, l string) string {
 }
 
 func genExt(g *yg.G, depth int) *A {
-	a := &A{Kw: []string{"x:ext", "y:note", "x:a-b", "ex:leaf", "p1:container"}[g.Pick(5, "extkw")]}
+	a := &A{Kw: []string{"x:ext", "y:note", "x:a-b", "ex:leaf", "p1:container", "my.ext:note", "_x.y-z:a.b_c"}[g.Pick(7, "extkw")]}
 	if g.Pick(5, "noarg") != 0 {
 		a.Val = sp(genValue(g))
 	}
